@@ -752,6 +752,75 @@ func checkAlgorithmTables(c *Ctx, r *Report) {
 		}
 		r.Check(okm, "authenticationAlgorithmParams."+mn+"|hmac.New(hashGen,key)", authFn.Pos(), "HMAC over the algorithm's hash keyed by the argument", "method "+mn+" does not return hmac.New(hashGen, key)")
 	}
+	// ICV(sik): the SIK-keyed HMAC, whole when the algorithm's ICV length is 0 (MD5-128) and
+	// truncated to exactly that length otherwise — decided per path of the method
+	if paramsT != nil {
+		if icv := c.MethodOf(paramsT, "ICV"); icv != nil && icv.Blocks != nil {
+			r.Fn(c.FnName(icv))
+			okICV, nICV, whyICV := true, 0, ""
+			isK := func(p CPath, v ssa.Value) bool {
+				for i := 0; i < 6; i++ {
+					v = p.Resolve(v)
+					switch x := v.(type) {
+					case *ssa.MakeInterface:
+						v = x.X
+						continue
+					case *ssa.ChangeInterface:
+						v = x.X
+						continue
+					}
+					break
+				}
+				call, ok := v.(*ssa.Call)
+				if !ok {
+					return false
+				}
+				f := call.Call.StaticCallee()
+				return f != nil && f.Name() == "K" && len(call.Call.Args) == 2 && p.Resolve(call.Call.Args[0]) == ssa.Value(icv.Params[0]) && p.Resolve(call.Call.Args[1]) == ssa.Value(icv.Params[1])
+			}
+			completeV := enumPaths(icv, 1, 1024, func(p CPath) {
+				ret, isRet := p.Last().(*ssa.Return)
+				if !isRet || ret.Parent() != icv {
+					return
+				}
+				nICV++
+				zero, decided := false, false
+				for _, rel := range p.relations() {
+					for _, pr := range [][2]ssa.Value{{rel.X, rel.Y}, {rel.Y, rel.X}} {
+						if !p.loadOfField(pr[0], icv.Params[0], "icvLength") {
+							continue
+						}
+						if k, isC := constInt(p.Resolve(pr[1])); isC && k == 0 {
+							switch rel.Op {
+							case token.EQL:
+								zero, decided = true, true
+							case token.NEQ, token.GTR:
+								zero, decided = false, true
+							}
+						}
+					}
+				}
+				rv := ret.Results[0]
+				switch {
+				case !decided:
+					okICV, whyICV = false, "whether the ICV is truncated is not decided by icvLength == 0"
+				case zero:
+					if !isK(p, rv) {
+						okICV, whyICV = false, "with ICV length 0 the result is not the whole SIK-keyed HMAC"
+					}
+				default:
+					f := p.objFields(p.objOf(rv))
+					ln, hasLen := f["length"]
+					if !isK(p, f["Hash"]) || !hasLen || !p.loadOfField(ln, icv.Params[0], "icvLength") {
+						okICV, whyICV = false, "with a non-zero ICV length the result is not the SIK-keyed HMAC truncated to that length"
+					}
+				}
+			})
+			r.Check(completeV && okICV && nICV >= 2, "authenticationAlgorithmParams.ICV|truncate iff icvLength != 0", icv.Pos(), "whole HMAC for length 0, truncated to icvLength otherwise", "the RAKP4 ICV hash is not HMAC_SIK truncated exactly when the algorithm specifies a truncation: "+whyICV)
+		} else {
+			r.Lost("authenticationAlgorithmParams.ICV")
+		}
+	}
 	// integrity: 1→(sha1,12) 2→(md5,full) 4→(sha256,16); hash keyed by g.K(1)
 	wantInt := map[int64][2]string{1: {"crypto/sha1.New", "12"}, 2: {"crypto/md5.New", "full"}, 4: {"crypto/sha256.New", "16"}}
 	gparam := integFn.Params[1]
